@@ -23,6 +23,7 @@ import os
 import shutil
 import sys
 import tempfile
+import dataclasses
 import types
 from typing import Dict, List, Optional, Union
 
@@ -44,6 +45,7 @@ sys.modules["verif_lp_gen"] = GEN
 OPT = Optional[Union[int, str, List[int]]]  # the Optional value domain: None, 0, 3, '', []
 GEN.OPT = OPT
 GEN.Optional = Optional
+GEN.dataclass = dataclasses.dataclass
 exec('''
 class Base:
     def __init__(self, p: OPT = 0, q: int = 0): self.p, self.q = p, q
@@ -65,6 +67,18 @@ class SrcSub(Src):
     def __init__(self, limit: OPT = 5, q: int = 0): self.limit, self.q = limit, q
 class SrcNoL(Src):
     def __init__(self, q: int = 0): self.q = q
+@dataclass
+class AugD:
+    seed: int
+    r: int = 0
+class InnerC:
+    def __init__(self, seed: int, r: int = 0): self.seed, self.r = seed, r
+class ModelO:
+    def __init__(self, aug: Optional[AugD] = None, q: int = 0): self.aug, self.q = aug, q
+class ModelP:
+    def __init__(self, aug: AugD, q: int = 0): self.aug, self.q = aug, q
+class ModelD:
+    def __init__(self, aug: InnerC, q: int = 0): self.aug, self.q = aug, q
 def f_one(a): return a * 10 + 7
 def f_lin(a, b): return a * 10 + b
 def f_grp(g): return g.x * 10 + g.y
@@ -77,10 +91,13 @@ def f_paro(v): return v * 10 + 7       # TypeError for None, '' and []
 def f_linp(v, a): return v * 10 + a    # TypeError unless v is an integer
 def f_lino(v, a): return f_tot(v) * 10 + a
 ''', GEN.__dict__)
-for _n in ("Base", "Sub", "NoP", "BaseR", "SubR", "NoPR", "G", "Src", "SrcSub", "SrcNoL"):
+for _n in ("Base", "Sub", "NoP", "BaseR", "SubR", "NoPR", "G", "Src", "SrcSub", "SrcNoL", "AugD", "InnerC", "ModelO", "ModelP", "ModelD"):
     GEN.__dict__[_n].__module__ = "verif_lp_gen"
 FN = {"id": None, "one": GEN.f_one, "lin": GEN.f_lin, "grp": GEN.f_grp, "asdict": None, "tot": GEN.f_tot, "cls": GEN.f_cls,
       "par": GEN.f_par, "paro": GEN.f_paro, "linp": GEN.f_linp, "lino": GEN.f_lino}
+
+
+NMODEL = {"dco": "ModelO", "dcp": "ModelP", "deep": "ModelD"}
 
 
 def build(shape, late=0, dcf=None):
@@ -120,10 +137,13 @@ def build(shape, late=0, dcf=None):
             p.add_argument("--m", type=List[base])
         else:
             p.add_class_arguments(base, "m")
+    if "np" in tg:  # (round 5) the target is a mandatory field of a nested dataclass / class value of a class argument
+        p.add_argument("--n", type=GEN.__dict__[NMODEL[shape["nkind"]]])
     def add(links):
         for l in links:
             srcs = tuple({"sl": "s.init_args.limit"}.get(x, x) for x in l["srcs"])
-            tgt = {"t": "t", "d": "d", "mp": "m.p" if shape["mkind"] == "grp" else "m.init_args.p"}[l["tgt"]]
+            tgt = {"t": "t", "d": "d", "mp": "m.p" if shape["mkind"] == "grp" else "m.init_args.p",
+                   "np": "n.init_args.aug.init_args.seed" if shape.get("nkind") == "deep" else "n.init_args.aug.seed"}[l["tgt"]]
             p.link_arguments(srcs if len(srcs) > 1 else srcs[0], tgt, FN[l["fn"]])
 
     n = len(shape["links"]) - late
@@ -191,6 +211,13 @@ def item_value(shape, it, n=0):
         if shape["mkind"] == "list":
             return "m", [concrete_spec(shape, s, n + j) for j, s in enumerate(val["v"] or [])]
         return "m", given_of(val)
+    if key == "n":
+        spec = {"class_path": "verif_lp_gen." + NMODEL[shape["nkind"]]}
+        inner = val["inner"]
+        if inner["k"] == "in":
+            given = {k: plain(v) for k, v in (inner["ia"] or {}).items()}
+            spec["init_args"] = {"aug": {"class_path": "verif_lp_gen.InnerC", "init_args": given} if shape["nkind"] == "deep" else given}
+        return "n", spec
     if key == "mq":
         return ("m.q" if shape["mkind"] == "grp" or n % 2 else "m.init_args.q"), plain(val)
     if key == "mp":
@@ -309,6 +336,29 @@ def a_m(v):
     return {"k": "other", "r": repr(v)[:60]}
 
 
+def a_n(v, shape):
+    """the value of n: Model(aug, q) with a nested dataclass / class value"""
+    if v is None:
+        return {"k": "none"}
+    if not (isinstance(v, dict) and isinstance(v.get("class_path"), str) and v["class_path"].endswith(NMODEL[shape["nkind"]])):
+        return {"k": "other", "r": repr(v)[:60]}
+    ia = {k: x for k, x in (v.get("init_args") or {}).items() if not is_meta(k)}
+    aug = ia.get("aug")
+    if set(ia) - {"aug", "q"} or set(v) - {"class_path", "init_args"} - {k for k in v if is_meta(k)}:
+        return {"k": "other", "r": repr(v)[:60]}
+    if aug is None:
+        inner = {"k": "none"}
+    elif shape["nkind"] == "deep":
+        if not (isinstance(aug, dict) and str(aug.get("class_path", "")).endswith("InnerC") and not set(aug) - {"class_path", "init_args"}):
+            return {"k": "other", "r": repr(v)[:60]}
+        inner = {"k": "in", "ia": {k: a_val(x) for k, x in (aug.get("init_args") or {}).items()}}
+    elif isinstance(aug, dict) and "class_path" not in aug:
+        inner = {"k": "in", "ia": {k: a_val(x) for k, x in aug.items() if not is_meta(k)}}
+    else:
+        return {"k": "other", "r": repr(v)[:60]}
+    return {"k": "nest", "q": a_val(ia.get("q")), "inner": inner}
+
+
 def alpha(cfg, shape) -> dict:
     """a parsed configuration (Namespace or dict read from a dump) -> the abstract configuration of LinksParse.tla"""
     d = cfg.as_dict() if isinstance(cfg, Namespace) else (cfg or {})
@@ -331,15 +381,16 @@ def alpha(cfg, shape) -> dict:
         out["o"] = a_val(d.get("o"))
     else:
         out["o"] = {"k": "absent"} if "o" not in d else {"k": "other", "r": "unexpected o"}
+    out["n"] = (a_n(d.get("n"), shape) if "np" in tg else {"k": "absent"} if "n" not in d else {"k": "other", "r": "unexpected n"})
     out["mpath"] = {"k": "path"} if isinstance(d.get("m"), dict) and "__path__" in d["m"] else {"k": "absent"}
-    extra = {k for k in d if not is_meta(k)} - {"a", "b", "g", "t", "d", "m", "s", "o", "cfg"}
+    extra = {k for k in d if not is_meta(k)} - {"a", "b", "g", "t", "d", "m", "s", "o", "n", "cfg"}
     if extra:
         out["a"] = {"k": "other", "r": "unexpected keys " + ",".join(sorted(extra))}
     return out
 
 
 PLACEHOLDER = {"a": {"k": "int", "v": 1}, "b": {"k": "int", "v": 2}, "gx": {"k": "int", "v": 1}, "gy": {"k": "int", "v": 2},
-               "t": {"k": "absent"}, "d": {"k": "absent"}, "m": {"k": "absent"}, "s": {"k": "absent"}, "o": {"k": "absent"}, "mpath": {"k": "absent"}}
+               "t": {"k": "absent"}, "d": {"k": "absent"}, "m": {"k": "absent"}, "s": {"k": "absent"}, "o": {"k": "absent"}, "n": {"k": "absent"}, "mpath": {"k": "absent"}}
 ABSENT = {"k": "absent"}
 ALL_OBS = False  # thorough: every kind of observation on every case
 WORKBASE = None  # scratch directory of the run (set before the worker pool is forked)
@@ -588,7 +639,7 @@ def random_case(rnd):
     srcs = {x for l in links for x in l["srcs"]}
     opt = bool(srcs & {"s", "sl", "o"})
     shape = {"links": links, "mkind": rnd.choice(["init", "grp"] if opt else ["init", "list", "grp"]) if "mp" in used else "init", "req": rnd.random() < 0.5,
-             "sub": (not opt) and rnd.random() < 0.25, "ap": False}
+             "nkind": "dco", "sub": (not opt) and rnd.random() < 0.25, "ap": False}
     if not opt and not shape["sub"] and shape["mkind"] != "list" and rnd.random() < 0.08:
         shape["ap"] = True
     OV = [{"k": "none"}, I(0), I(3), I(2), {"k": "str", "v": ""}, {"k": "elist"}]
@@ -720,7 +771,7 @@ def run_trace(module, path, expect):
 
 # ------------------------------------------------------------------------------------- main
 def shape_tag(sh) -> str:
-    return sh["mkind"] + ":" + "+".join(l["tgt"] + "<" + l["fn"] for l in sh["links"]) + (":req" if sh["req"] else "") + (":sub" if sh["sub"] else "") + (":ap" if sh.get("ap") else "")
+    return sh["mkind"] + ":" + "+".join(l["tgt"] + "<" + l["fn"] for l in sh["links"]) + (":req" if sh["req"] else "") + (":sub" if sh["sub"] else "") + (":ap" if sh.get("ap") else "") + (":" + sh["nkind"] if any(l["tgt"] == "np" for l in sh["links"]) else "")
 
 
 def main(argv):
@@ -814,7 +865,7 @@ def main(argv):
         rep.extra["histories_rejected_by_spec"] = sum(1 for c in cases if c["ok"] and not c["shape"]["ap"] and not c["hok"])
         rep.extra["cases_with_print_config_sent_to_tlc"] = n_print
         rep.extra["cases_rejected_by_spec"] = sum(1 for c in cases if not c["ok"])
-        rep.extra["cases_supplying_the_target"] = sum(1 for c in cases if any(it["key"] in ("t", "d", "mp") or (it["key"] == "m" and "\"p\"" in json.dumps(it["val"])) for it in c["items"]))
+        rep.extra["cases_supplying_the_target"] = sum(1 for c in cases if any(it["key"] in ("t", "d", "mp") or (it["key"] in ("m", "n") and ("\"p\"" in json.dumps(it["val"]) or "\"seed\"" in json.dumps(it["val"]))) for it in c["items"]))
         rep.extra["shapes"] = len({json.dumps(c["shape"], sort_keys=True) for c in cases})
         for c in (cases[:: max(1, len(cases) // 3)])[:3]:
             env, arg = concretise(c["shape"], c["api"], c["items"])
